@@ -34,7 +34,7 @@ pub fn seeds() -> Vec<Seed> {
         s("ep-prepare-pins", "b3k2b/3p1p2/8/4P3/2q1p1Q1/8/3P1P2/B3K2B w - - 0 1", false),
         // double check, check evasions, promotions while in check
         s("double-check", "4k3/8/8/8/1b6/8/3N4/r3K3 w - - 0 1", false),
-        s("double-check-disc", "k7/8/8/8/8/2n5/3r4/R3K2R w KQ - 0 1", false),
+        s("double-check-disc", "6k1/8/8/8/8/5n2/4r3/R3K2R w KQ - 0 1", false),
         s("promo-in-check", "3rk3/2P5/8/8/8/8/8/3K4 w - - 0 1", false),
         s("promo-capture-check", "1n1rk3/2P5/8/8/8/8/8/3K4 w - - 0 1", false),
         s("promo-both", "r3k2r/1P4P1/8/8/8/8/1p4p1/R3K2R w KQkq - 0 1", false),
@@ -52,7 +52,7 @@ pub fn seeds() -> Vec<Seed> {
         s("pinned-pawn-capture", "7k/8/8/8/1b6/2P5/3K4/8 w - - 0 1", false),
         s("pinned-slider", "4r2k/8/8/8/4R3/8/8/4K3 w - - 0 1", false),
         // clocks and bare material
-        s("hmc-98", "4k3/8/8/8/8/8/4R3/4K3 w - - 98 60", false),
+        s("hmc-98", "4k3/8/8/8/8/8/3R4/4K3 w - - 98 60", false),
         s("hmc-99", "4k3/8/8/8/8/8/4P3/4K2R b K - 99 60", false),
         s("bare-minor", "4k3/8/8/8/8/8/8/4KB2 w - - 0 1", false),
         s("two-knights", "4k3/8/8/8/8/8/8/1N2K1N1 w - - 0 1", false),
@@ -60,8 +60,8 @@ pub fn seeds() -> Vec<Seed> {
         s("kp-k", "8/8/8/4k3/8/8/4P3/4K3 w - - 0 1", false),
         // SAN disambiguation and SEE material
         s("disamb-knights", "k7/8/8/8/8/5N2/8/KN3N2 w - - 0 1", false),
-        s("disamb-queens", "k7/8/8/8/Q6Q/8/8/K6Q w - - 0 1", false),
-        s("disamb-rooks", "3r3r/8/8/R7/4k3/R7/8/1K5r b - - 0 1", false),
+        s("disamb-queens", "1k6/8/8/8/Q6Q/8/8/K6Q w - - 0 1", false),
+        s("disamb-rooks", "3r3r/8/8/R7/4k3/R7/1K6/7r b - - 0 1", false),
         s("see-battery", "1k1r3q/1ppn3p/p4b2/4p3/8/P2N2P1/1PP1R1BP/2K1Q3 w - - 0 1", true),
         s("see-xray", "k7/2q2n2/8/4p2R/5P2/2B1Q3/8/6K1 w - - 0 1", false),
         s("tactical-prop", "8/6k1/8/2R5/8/1K6/3Q1p2/8 w - - 1 25", false),
@@ -150,9 +150,16 @@ fn pawn_ok(m: Man, s: u8) -> bool {
 /// F-MAT: all placements of both kings (white king on `wk`) plus `men` on distinct squares.
 /// Sharded by the white king's square so that 64 shards can run in parallel.
 pub fn enumerate_material(wk: u8, men: &[Man], f: &mut dyn FnMut(&Pos)) {
+    for bk in 0..64u8 {
+        enumerate_material_kk(wk, bk, men, f);
+    }
+}
+
+/// One (white king, black king) shard of F-MAT.
+pub fn enumerate_material_kk(wk: u8, only_bk: u8, men: &[Man], f: &mut dyn FnMut(&Pos)) {
     let mut p = Pos::empty();
     p.board[wk as usize] = Some((Color::W, Kind::K));
-    for bk in 0..64u8 {
+    for bk in only_bk..=only_bk {
         if bk == wk {
             continue;
         }
